@@ -96,6 +96,12 @@ func Unmarshal(s string, k protoreflect.Kind, evs protoreflect.EnumValueDescript
 			v = math.NaN()
 		default:
 			v, err = strconv.ParseFloat(s, 64)
+			if err == nil && k == protoreflect.FloatKind {
+				// Parse at 32-bit precision: narrowing the float64 result
+				// would round twice, which is off by one ulp for some
+				// decimal strings. Overflow still yields (-)infinity.
+				v, _ = strconv.ParseFloat(s, 32)
+			}
 		}
 		if err == nil {
 			if k == protoreflect.FloatKind {
